@@ -6,6 +6,7 @@ import (
 	"go/token"
 	"go/types"
 	"os"
+	"regexp"
 	"sort"
 	"strings"
 
@@ -39,6 +40,9 @@ type loopInfo struct {
 	ordinal int
 	body    map[*ssa.BasicBlock]bool
 	rangeI  *ssa.Range // iterator advanced in the head block, if any
+	// kindChanged: non-empty when the loop changed between index and range form
+	// since the ledger was written
+	kindChanged string
 }
 
 type verifyCtx struct {
@@ -117,6 +121,16 @@ func (e *Engine) loopsOf(fn *ssa.Function) map[*ssa.BasicBlock]*loopInfo {
 		if remap != nil {
 			loops[h].ordinal = remap[i]
 		}
+		// an index loop that became a range loop (or the reverse): the invariants
+		// written for the other form do not describe this loop
+		if want := e.ledgerLoopKeys[fn.String()]; len(want) == len(heads) {
+			if have := e.loopHeaders(fn); len(have) == len(heads) {
+				w, hv := want[loops[h].ordinal-1], have[i]
+				if w != "" && hv != "" && isRangeHeader(w) != isRangeHeader(hv) {
+					loops[h].kindChanged = fmt.Sprintf("loop %d of %s was `%s` when its invariants were written and is `%s` now (contract no longer matches the source)", loops[h].ordinal, fn.Name(), w, hv)
+				}
+			}
+		}
 		for _, ins := range h.Instrs {
 			if n, ok := ins.(*ssa.Next); ok {
 				if r, ok := n.Iter.(*ssa.Range); ok {
@@ -169,6 +183,10 @@ func (e *Engine) loopHeaders(fn *ssa.Function) []string {
 	})
 	return out
 }
+
+var rangeHeaderRe = regexp.MustCompile(`(^|[ =])range `)
+
+func isRangeHeader(h string) bool { return rangeHeaderRe.MatchString(h) }
 
 func (e *Engine) readSource(name string) ([]byte, error) {
 	if b, ok := e.srcCache[name]; ok {
@@ -232,6 +250,9 @@ func (e *Engine) atLoopHead(st *State, fr *frame, li *loopInfo, pred *ssa.BasicB
 	var invs []*Clause
 	if c != nil {
 		invs = c.LoopInv[li.ordinal]
+	}
+	if li.kindChanged != "" && len(invs) > 0 {
+		panic(unsupported(li.kindChanged))
 	}
 	if c != nil && c.Unroll[li.ordinal] > 0 {
 		key := fmt.Sprintf("unroll:%p", li.head)
